@@ -14,7 +14,7 @@ checks = {
          "every string of <=3 (thorough 4) tokens over a 60-token alphabet x 10 wrappers through EvalString, LoadString+Run, the REPL line path and the parser; every bound name, macro and special form x all argument vectors of length 0..2 (thorough 3) over 24 value/form kinds; every top-level form of the 111 corpus scripts under every prefix, single-token deletion, duplication, neighbour swap and replacement by 8 (thorough 18) tokens, evaluated after the forms before it; 31 nesting families to depth 1000 (thorough 20000); 9 declaration routes x every bound/reserved name followed by construction of the next interpreter; hand list + alphabet through zygo -c / stdin / script file. No Go panic may escape, no process may die, no call may return (nil, nil), and every call returns within 60 s unless the 100000-step VM budget ran out",
          "mutation of the corpus is bounded to one token edit per form (the property's 'unbounded mutation' is not reachable by enumeration); outside-world functions and the minutes-long debug dump are stubbed; out-of-memory is not explored; calls that wait on channels are counted, not judged", "§3 C01"),
  "C08": ("exploration", "small-scope exhaustive enumeration of every bound name and special form x canary argument vectors x call routes on real sandboxed interpreters and on cmd/zygo -sandbox; oracle = canary files, canary environment variable and secrets unchanged/unseen",
-         "configurations {NewZlispSandbox(), sandbox + StandardSetup(), zygo -sandbox -c} x every name the interpreter itself reports as bound (so an added primitive is seen) + the compiler's special forms + setup macros x all argument vectors of length 0..2 (thorough 3) over a 9-item canary menu x 5 (bare) / 9 (standard) call routes incl. alias, apply, eval, macros, eval at expansion time in a duplicated interpreter; every outside-world primitive of the full interpreter is also reached for through names computed at run time; after every call the canary directory must be byte-identical, the canary variable unchanged, no secret in value or stdout",
+         "configurations {NewZlispSandbox(), sandbox + StandardSetup(), zygo -sandbox -c} x every name the interpreter itself reports as bound (so an added primitive is seen) + the compiler's special forms + setup macros x all argument vectors of length 0..2 (thorough 3) over a 9-item canary menu x 5 (bare) / 9 (standard) call routes incl. alias, apply, eval, macros, eval at expansion time in a duplicated interpreter; every outside-world primitive of the full interpreter is also reached for through names computed at run time, and again after the script itself has bound that name (as value, function or macro); after every call the canary directory must be byte-identical, the canary variable unchanged, no secret in value or stdout",
          "effects without a canary (network, clocks) are not judged; calls that block >4 s are counted, not judged; bounded argument vectors", "§3 C08"),
  "C02": ("exploration", "small-scope exhaustive enumeration of core-language programs, differential against a reference evaluator written in Go",
          "all depth-1 programs in 6 layout styles and all context chains of length 2 (thorough: 3, plus full depth-2 trees) over 59 contexts and 10 leaves are run on a fresh real interpreter and on the reference evaluator R1; value, error and the order of traced host calls must agree",
@@ -29,7 +29,7 @@ checks = {
          "all 28 signatures of 1..3 strict/lazy parameters (with/without variadic tail) x all assignments of 7 usages to the lazy ones x 9 call routes x failing/zero/normal argument choices x 0..2 variadic extras; count and order of argument evaluations (host-call trace), values and errors must equal R1's",
          "trusts R1's thunk model; typed func declarations are not generated; bounded to 3 parameters", "§3 C16"),
  "C13": ("fault_enumeration", "exhaustive enumeration of cut points (where the input stream ends and the parser has to pause) over corpus + generated texts, plus explicit-state BFS over parse histories keyed by the lexer residue",
-         "for the 110 corpus scripts, a hand list and every string of <=3 (thorough 4) tokens over a 40-token alphabet: whole parse vs parse with trailing newline, pause-iff-unfinished against an independent prefix scanner, every 1-cut and (short texts) every 2-cut delivered with the REPL pause protocol; BFS over histories of 18 residue-leaving inputs (depth 3/4) with 10 probe texts compared with a fresh interpreter",
+         "for the 110 corpus scripts, a hand list and every string of <=3 (thorough 4) tokens over a 40-token alphabet: whole parse vs parse with trailing newline, pause-iff-unfinished against an independent prefix scanner, every 1-cut and (short texts) every 2-cut delivered with the REPL pause protocol; 13 multi-line forms with 0-2 empty lines at every line break typed into the real REPL of cmd/zygo; BFS over histories of 18 residue-leaving inputs (depth 3/4) with 10 probe texts compared with a fresh interpreter",
          "trusts the prefix scanner R8 and the whole-text parse as reference; cuts are rune-aligned; more than two cuts are not explored", "§3 C13"),
  "C05": ("fault_enumeration", "deviation-bounded exploration of fault points (k-th host call fails, by error or by panic) over enumerated programs, oracle = reference evaluator run with the same fault",
          "every program of the C02 grammar (depth-1 full, chains of length 2) plus lazy/deep/tail/loop contexts: default run counts the host calls N, then each k<=N x {error, panic} re-runs on a fresh interpreter; result, trace, stacks at rest and a 17-item follow-up battery must equal the reference evaluator's after the same fault (thorough: + a second fault during the follow-ups); 14 malformed forms in every hole of every context and 8 unparsable texts must yield errors and leave the interpreter usable",
@@ -44,10 +44,10 @@ checks = {
          "all histories of depth 5 (thorough 7) over 24 operations (MakeSymbol of fixed and would-be-generated names, GenSymbol, Duplicate, Clone on members 0..2); in every state: equal names <=> equal numbers over all symbols returned, generated symbols fresh and pairwise distinct, table a bijection; plus 8 script-level programs",
          "state key = user table entries + per-member counters + generated names, read through verif accessors; family of at most 3", "§3 C19"),
  "C15": ("exploration", "small-scope exhaustive enumeration of templates and macro call sites; value compared with an exact-substitution function, macro calls compared with hand-written expansions",
-         "every list/array template of width 1..3 over 20 leaves (literals, unquotes of 6 bindings, splices of 4 lists incl. empty and nested, compound and traced unquotes) and with width-1..2 nested containers, written with the reader sugar; 12 macros x all argument tuples over 5 forms x 7 call sites x {direct, inside another macro's expansion}: value, effects and stacks vs the hand expansion; macexpand prints the exact substitution and leaves the caller's depths and globals unchanged",
+         "every list/array template of width 1..3 over 20 leaves (literals, unquotes of 6 bindings, splices of 4 lists incl. empty and nested, compound and traced unquotes) and with width-1..2 nested containers, written with the reader sugar; 15 macros x all argument tuples over 6 forms x 10 call sites x {direct, inside another macro's expansion}: value, effects and stacks vs the hand expansion; macexpand prints the exact substitution and leaves the caller's depths and globals unchanged",
          "trusts R4 (substitution inside the reference evaluator); splicing a non-list and nested syntax-quotes are skipped", "§3 C15"),
  "C12": ("exploration", "exhaustive enumeration of a structured value space (boundary numbers, the whole Unicode range in thorough, adversarial strings) through print -> read/eval, and of literal spellings against strconv/math/big",
-         "ints, ~1300 floats (every 7th power of two and neighbours; thorough: every power of two and neighbours over the full exponent range), floats computed by the interpreter, bools, nil, every rune of U+0000..U+20FF + every 257th scalar above + representatives (thorough: all 1,112,064 scalars) as char and 1-char string, 2-char (3-char) adversarial strings, symbols, JSON-like hashes, each bare / in list / in array / nested: (read (str v)) and, for JSON-like values, (eval (read (str v))) equal v structurally; ~700 numeric literal spellings and all char/string literals and escapes denote their exact value",
+         "ints, ~1300 floats (every 7th power of two and neighbours; thorough: every power of two and neighbours over the full exponent range), floats computed by the interpreter, bools, nil, every rune of U+0000..U+20FF + every 257th scalar above + representatives (thorough: all 1,112,064 scalars) as char and 1-char string, 2-char (3-char) adversarial strings, strings computed by concat from raw and quoted literals, one object shared twice inside a value, symbols, JSON-like hashes, each bare / in list / in array / nested: (read (str v)) and, for JSON-like values, (eval (read (str v))) equal v structurally; ~700 numeric literal spellings and all char/string literals and escapes denote their exact value",
          "structural comparison with numbers by value; hashes judged in the eval direction; literal grammar is a structured grid, not all strings", "§3 C12"),
  "C11": ("exploration", "exhaustive enumeration of a structured value space through json/unjson and msgpack/unmsgpack, with encoding/json as independent judge of the JSON text",
          "nil, bools, boundary ints, ~190 finite floats, every 1-char string over U+0000..U+20FF + every 257th scalar above + representatives (thorough: all Unicode scalars) and all 2-char adversarial strings, as scalars, in arrays, in hashes and named records (1 key x every scalar, 3 keys in all 6 orders, nested, awkward field names) and in string-keyed hashes; round trips equal the value incl. record type names and key order at every level; (json v) is accepted by encoding/json and denotes the same data",
@@ -59,7 +59,7 @@ checks = {
          "a package tree of depth 3 (thorough 4) with values, functions, hashes (with nested hash) and nested packages under upper-case, lower-case and underscore names at every level; every member x every dot path {direct, alias of the top package, alias of each nested package on the way} x 4 read routes and 2 write routes; allowed iff the last hop is capitalised (hash fields: iff the hash is stored under a capitalised name), allowed -> the member's unique number / effective write, denied -> error and member unchanged; inside code keeps access",
          "trusts the visibility model R7; lower-case fields of hashes are not judged", "§3 C18"),
  "C10": ("exploration", "small-scope exhaustive enumeration of records of harness-registered Go struct types covering every field kind, checked with reflect.DeepEqual and an echo through Go methods",
-         "Go value fixed first, record text derived from it: 37 single-field cases over 18 field kinds, all (quick: a third of the) ordered pairs of fields, all triples of fields (thorough), 6 sharing patterns; SexpToGoStructs and (togo r) give DeepEqual values with one object per shared record; (_method a EchoSelf:) returns an equivalent record; 11 records with undeclared fields or wrong-kind values are reported as errors",
+         "Go value fixed first, record text derived from it: 48 single-field cases over 22 field kinds (incl. slices of struct values and pointers, map of interfaces, three levels of embedding), every subset of the embedded fields, 5 change-then-convert-again sequences, all (quick: a third of the) ordered pairs of fields, all triples of fields (thorough), 6 sharing patterns; SexpToGoStructs and (togo r) give DeepEqual values with one object per shared record; (_method a EchoSelf:) returns an equivalent record; 11 records with undeclared fields or wrong-kind values are reported as errors",
          "types registered by the harness through the public registry; unset fields may come back as zero values; the time.Time loss on the way back is a recorded finding pinned by the repository's own tests", "§3 C10"),
  "C20": ("model_checking", "deviation-bounded exploration of map-iteration choice points on a rebuilt package (AST rewrite through go build -overlay routes every range over a map through a chooser), plus re-runs in the same and in a fresh process",
          "for each of 98 corpus programs the default run (all maps iterated in sorted order, interpreter construction included) records the choice points (30 rewritten range sites); every single deviation (reverse, rotate, swap; all permutations for <=3 keys; thorough: + pairs of reversals) is executed and value, captured stdout and error text must equal the default run's; each program is re-run in the same process and in a fresh process",
